@@ -176,6 +176,34 @@ def _work_long(task) -> core.Part:
                                {"kind": "window", "data": d.hex(), "start": st, "length": ln}, size=ln)
                         if p.full("window"):
                             return p
+    elif kind == "reuse":
+        # the same buffer object passed again and again (bytes and bytearray), windows in non-monotonic order, the
+        # bytearray modified in place between calls: a static function must not remember anything about earlier calls
+        buf = bytearray(rnd.randrange(256) for _ in range(48))
+        frozen = bytes(buf)
+        wins = [(st, ln) for st in (0, 1, 5, 17) for ln in (0, 1, 2, 9, 16, 30) if st + ln <= 48]
+        def one(obj, name, st, ln, what):
+            got = F.compute_checksum(obj, st, ln)
+            exp = R.fcs16_fast(bytes(obj[st:st + ln]))
+            p.add("windows")
+            if got != exp:
+                p.viol("window", f"window:reuse:{name}:{what}:{st}:{ln}", f"compute_checksum on a re-used {name} object ({what}), window ({st}, {ln}) = {got:#06x}, reference {exp:#06x}",
+                       {"kind": "window", "data": bytes(obj).hex(), "start": st, "length": ln}, size=ln)
+
+        for rep in range(6):
+            order = wins if rep % 2 == 0 else list(reversed(wins))
+            for st, ln in order:  # same immutable object, windows in changing order
+                one(frozen, "bytes", st, ln, f"round {rep}")
+            for st, ln in order:  # same mutable object: call, change in place, call again (same and larger window)
+                one(buf, "bytearray", st, ln, f"round {rep}")
+                if ln:
+                    buf[st + (rep * 5) % ln] ^= 1 + rep
+                one(buf, "bytearray", st, ln, f"round {rep}, after an in-place change inside the window")
+                if st + ln + 3 <= 48:
+                    buf[st] ^= 0x40
+                    one(buf, "bytearray", st, ln + 3, f"round {rep}, window grown by 3 after an in-place change")
+            if p.full("window"):
+                return p
     else:
         for pat in (lambda i: rnd.randrange(256), lambda i: 0x7E, lambda i: i & 0xFF):
             f = F()
@@ -221,7 +249,7 @@ def main(run: core.Run) -> int:
     if not run.quick:
         tasks += [("three", a) for a in range(256)]
     run.merge(par.pmap(_work_cc, tasks, seed=run.seed))
-    run.merge(par.pmap(_work_long, [("windows", run.seed), ("windows", run.seed + 1), ("runs", run.seed)], seed=run.seed))
+    run.merge(par.pmap(_work_long, [("windows", run.seed), ("windows", run.seed + 1), ("runs", run.seed), ("reuse", run.seed), ("reuse", run.seed + 1)], seed=run.seed))
     tot = run.total
     tot.sample({"message": "7e0301", "update_returns": [hex(R.fcs_reg(b"\x7e")), hex(R.fcs_reg(b"\x7e\x03")),
                                                          hex(R.fcs_reg(b"\x7e\x03\x01"))]})
